@@ -24,4 +24,14 @@ theorem consider_uses_getDocument : Facts.considerConds.map (fun l => l.head?) =
     that stores them in the collection or the span file -/
 theorem caller_slices_not_retained : Facts.callerSliceUses = some ["AddDocument: if len(vector) != c.DimensionCount { log.Panicf(\"vector size does not match the expected number of dimensions: expected %d, got %d\", c.DimensionCount, len(vecto", "AddDocument: doc := &Document{ Vector: vector, Metadata: metadata, ID: id, }", "AddDocument: encodedVector := encodeDocument(doc, c.Quantization)", "AddDocument: dataStreams := []DataStream{ {StreamID: 0, Data: metadata}, {StreamID: 1, Data: encodedVector}, }", "AddDocument: err := c.spanfile.WriteRecord(fmt.Sprintf(\"%d\", id), dataStreams)", "UpdateDocument: dataStreams := []DataStream{ {StreamID: 0, Data: newMetadata}, {StreamID: 1, Data: span.DataStreams[1].Data}, }", "UpdateDocument: err = c.spanfile.WriteRecord(fmt.Sprintf(\"%d\", id), dataStreams)", "WriteRecord: span := &Span{ MagicNumber: activeMagic, SequenceNumber: sequenceNumber, RecordID: recordID, DataStreams: dataStreams, }", "WriteRecord: spanBytes, err := serializeSpan(span)"] := rfl
 
+/-- the caller's slices are not modified: `normalizeVector` is the only function of the package that writes through a
+    slice parameter (element assignment, `copy` into it, `binary.…Put…` on it), its only call site hands it a vector
+    the callee has just allocated, and `Search` hands the query vector to the (read-only) distance function and index
+    search only — besides printing the argument struct -/
+theorem caller_slices_not_modified :
+    Facts.paramSliceWriters = some ["normalizeVector:vector"] ∧
+    Facts.sliceWriterCalls = some ["randomNormalizedVector: normalizeVector(vector)"] ∧
+    Facts.searchVectorUses = some ["distance := c.distance(args.Vector, doc.Vector)", "c.index.search(args.Vector, radius, consider)", "args passed whole: log.Printf(\"Search called with %+v\", args)"] :=
+  ⟨rfl, rfl, rfl⟩
+
 end Syzgy.Tie.Snapshot
